@@ -375,7 +375,15 @@ def may_be_none(mod, fnode, e, depth=0, ix=None, at=None):
     if isinstance(e, ast.Call):
         if isinstance(e.func, ast.Attribute) and e.func.attr == "get" and len(e.args) == 1 and not e.keywords:
             return f"{ast.unparse(e)[:30]} is None for a missing key"
-        return _call_none(mod, e, None)
+        if isinstance(e.func, ast.Attribute) and e.func.attr == "get" and len(e.args) == 2 and not e.keywords:
+            w = may_be_none(mod, fnode, e.args[1], depth + 1, ix, at)       # the default of a lookup is what a missing key yields
+            return f"the default of {ast.unparse(e)[:40]} may be None: {w}" if w else ""
+        if isinstance(e.func, ast.Name) and e.func.id == "getattr" and len(e.args) == 3:
+            w = may_be_none(mod, fnode, e.args[2], depth + 1, ix, at)
+            return f"the default of {ast.unparse(e)[:40]} may be None: {w}" if w else ""
+        return _call_none(mod, e, None, depth)
+    if isinstance(e, ast.Subscript) and isinstance(e.value, ast.Call) and isinstance(e.slice, ast.Constant) and isinstance(e.slice.value, int):
+        return _call_none(mod, e.value, e.slice.value, depth)               # f(...)[i]: position i of the returned tuple
     if isinstance(e, ast.Name):
         for n in own_walk(fnode):
             if isinstance(n, ast.Compare) and isinstance(n.left, ast.Name) and n.left.id == e.id and any(isinstance(o, (ast.Is, ast.IsNot)) for o in n.ops):
@@ -429,12 +437,39 @@ def _dominating_def(ix, fnode, stmt, name):
     return None
 
 
-def _call_none(mod, call, index):
-    name = dotted(call.func).split(".")[-1]
+# standard-library calls documented to answer None when they do not know ("value" / position of the tuple -> why)
+STDLIB_OPTIONAL = {
+    "mimetypes.guess_type": ("tuple", "mimetypes.guess_type() answers (None, None) for a name it has no type for"),
+    "mimetypes.guess_extension": ("value", "mimetypes.guess_extension() answers None for a type it has no extension for"),
+    "shutil.which": ("value", "shutil.which() answers None when the command is not found"),
+    "imghdr.what": ("value", "imghdr.what() answers None for an unknown format"),
+    "os.environ.get": ("value", "os.environ.get() answers None for an unset variable"),
+    "os.getenv": ("value", "os.getenv() answers None for an unset variable"),
+}
+
+
+def _call_none(mod, call, index, depth=0):
+    full = dotted(call.func)
+    origin = mod.imports.get(full.split(".")[0], "") if full else ""
+    std = STDLIB_OPTIONAL.get(full) or STDLIB_OPTIONAL.get(origin + full[len(full.split(".")[0]):] if origin else "")
+    if std is not None and full.split(".")[0] not in mod.functions:
+        if (std[0] == "tuple") == (index is not None) and not (full.endswith(".get") and len(call.args) > 1) and not (full == "os.getenv" and len(call.args) > 1):
+            return std[1]
+        return ""
+    name = full.split(".")[-1]
+    gmod = mod
     g = mod.functions.get(name)
     if g is None:
         cands = [f for q, f in mod.functions.items() if q.split(".")[-1] == name and "<locals>" not in q]
         g = cands[0] if len(cands) == 1 else None
+    if g is None and isinstance(call.func, ast.Name):
+        # a helper imported from another module of the package: its returns are judged in its own module
+        try:
+            m2, k = _module_of_import(mod, name, getattr(mod, "repo", None))
+        except Exception:  # noqa
+            m2, k = None, None
+        if m2 is not None and k in m2.functions:
+            gmod, g = m2, m2.functions[k]
     if g is None:
         return ""
     ann = g.returns
@@ -456,6 +491,11 @@ def _call_none(mod, call, index):
         v = r.elts[index] if index is not None and isinstance(r, ast.Tuple) and index < len(r.elts) else (r if index is None else None)
         if isinstance(v, ast.Constant) and v.value is None:
             return f"{name}() returns None" + (f" at position {index}" if index is not None else "")
+        if v is not None and depth < 3 and isinstance(g, (ast.FunctionDef, ast.AsyncFunctionDef)):
+            # a return value built from a recognised source of None (in the helper's own module; bounded depth)
+            w = may_be_none(gmod, g, v, depth + 1)
+            if w:
+                return f"{name}() may return None" + (f" at position {index}" if index is not None else "") + f" ({short(gmod.rel)}:{r.lineno}: {w})"
     return ""
 
 
